@@ -27,7 +27,10 @@ Inductive case :=
 | C12 (ops : list c12op)
 | Seg (id : N) (o_seg : bytes)
 | Load (ids : list N) (o_listing : list N) (o_loaded : option N)
-| Sched (base : N) (steps : list c13step) (o_end_writes : list N) (o_end_removes o_end_notes : list (list N)).
+| Sched (base : N) (steps : list c13step) (o_end_writes : list N) (o_end_removes o_end_notes : list (list N))
+(* a real dkv.DB takes DKV checkpoints 1,2,.. (RCk) and receives the job's retention notifications (RRt id), possibly
+   late; o_open: the ids whose handle still opens at the end and holds every key written before that checkpoint *)
+| Retain (steps : list rstep) (o_open : list N).
 
 (* ---------- equality tests on observables (order-insensitive where the order is not an API matter) ---------- *)
 Definition optN_eqb (a b : option N) : bool :=
@@ -191,6 +194,16 @@ Fixpoint spec_sched (z : sst) (steps : list c13step) : list N :=
   | _ :: r => spec_sched z r
   end.
 
+Fixpoint last_note (steps : list rstep) (acc : option N) : option N :=
+  match steps with [] => acc | RCk :: r => last_note r acc | RRt id :: r => last_note r (Some id) end.
+
+Definition check_retain (steps : list rstep) (o_open : list N) : list N :=
+  let kept := retain_run [] 1 steps in
+  let newest := taken 1 steps in
+  (if forallb (fun i => mem i o_open) kept then [] else [30]) ++
+  (if (newest =? 0) || mem newest o_open then [] else [110]) ++
+  (match last_note steps None with Some i => if mem i o_open then [] else [110] | None => [] end).
+
 Definition check_case (c : case) : list N :=
   match c with
   | C12 ops => check_c12 ops
@@ -208,6 +221,7 @@ Definition check_case (c : case) : list N :=
           && nll_eqb (match nhold s with Some n => [[n]] | None => [] end) et then [] else [27]) ++
       spec_sched (MkSst (if base =? 0 then [] else [base]) (if base =? 0 then [] else [base]) []
                         [] (if base =? 0 then [] else [(base, 0)]) []) steps
+  | Retain steps o => check_retain steps o
   end.
 
 Definition run (cases : list (N * case)) : list (N * N) :=
